@@ -306,6 +306,79 @@ def keysExactStruct (fs : Fields) (ks : List Str) : JM → Bool
     && keysExactStruct fs ks r
 end
 
+/-! ### the predicates of the agreement with encoding/json (used by the theorems AND by the monitor) -/
+
+mutual
+/-- a document proper: no null (YAML turns it into "", TOML cannot write it) and no `nilArr` (not a document value). -/
+def plainDoc : J → Bool
+  | .null => false
+  | .nilArr => false
+  | .arr l => plainDocList l
+  | .obj m => plainDocMap m
+  | _ => true
+def plainDocList : JL → Bool
+  | .nil => true
+  | .cons h t => plainDoc h && plainDocList t
+def plainDocMap : JM → Bool
+  | .nil => true
+  | .cons _ v t => plainDoc v && plainDocMap t
+end
+
+mutual
+/-- no struct of the type has two fields with the same key (`encoding/json` would drop both, go-zero fills both). -/
+def tyKeysDistinct : Ty → Bool
+  | .prim _ => true
+  | .ptr t => tyKeysDistinct t
+  | .slice t => tyKeysDistinct t
+  | .map t => tyKeysDistinct t
+  | .struct fs => !hasDup fs.keys && fieldsKeysDistinct fs
+def fieldsKeysDistinct : Fields → Bool
+  | .nil => true
+  | .cons _ t rest => tyKeysDistinct t && fieldsKeysDistinct rest
+end
+
+/-- a key that go-zero looks up as it is spelled: not empty and without `.` (go-zero reads `a.b` as the path
+`a` → `b`, encoding/json literally: `std_differs_dotted_key`). -/
+def keyPlain (k : Str) : Bool := decide (k ≠ []) && !k.contains '.'
+
+mutual
+/-- every field key of the type is `keyPlain`. -/
+def tyKeysPlain : Ty → Bool
+  | .prim _ => true
+  | .ptr t => tyKeysPlain t
+  | .slice t => tyKeysPlain t
+  | .map t => tyKeysPlain t
+  | .struct fs => fieldsKeysPlain fs
+def fieldsKeysPlain : Fields → Bool
+  | .nil => true
+  | .cons f t rest => keyPlain f.tagKey && tyKeysPlain t && fieldsKeysPlain rest
+end
+
+/-- **the documented differences with encoding/json** (the `open` entries std-* of known_findings.json) as ONE decidable
+classification of a (type, document) pair; `none` = the pair lies in none of them.  `agrees_with_encoding_json_total`:
+for a plain type, whenever both decoders accept, the values are equal up to nil-vs-empty maps (std-nil-vs-empty-map,
+`Val.normNil`) OR the pair is classified here.  The monitor (`stdMonitor`) names the class with this very function. -/
+inductive StdClass where
+  /-- std-null-elements: the document contains null -/
+  | null
+  /-- std-case-fold: two keys of one object equal up to case, or a key that names a field only up to case -/
+  | caseFold
+  /-- std-dotted-key: a tag key that is empty or contains '.' (a path for go-zero, a literal for encoding/json) -/
+  | dottedKey
+  /-- two fields of one struct carry the same key (go vet `structtag` rejects such a type; encoding/json drops both) -/
+  | dupKey
+  deriving DecidableEq, Repr
+
+def stdClass (fs : Fields) (j : J) : Option StdClass :=
+  if plainDoc j = false then some .null
+  else if noCaseCollision j = false ∨ keysExact (.struct fs) j = false then some .caseFold
+  else if tyKeysPlain (.struct fs) = false then some .dottedKey
+  else if tyKeysDistinct (.struct fs) = false then some .dupKey
+  else none
+
+def StdClass.name : StdClass → String
+  | .null => "null" | .caseFold => "case-fold" | .dottedKey => "dotted-key" | .dupKey => "duplicate-key"
+
 /-! ### the delegating entry points, through their data flow (`Buf.lean` part 2)
 
 The values that travel through `mapping.Unmarshal{Yaml,Toml}{Bytes,Reader}` and `conf.LoadFrom{Yaml,Toml}Bytes`:
